@@ -5,7 +5,8 @@
 (* Part 1 - exact reference predicates over integer (lattice) coordinates:*)
 (*   Area2 / IsCcwPolygon      shoelace sign            is_ccw_polygon     *)
 (*   Cross2 / Left             orientation of a triple  is_ccw_polyline    *)
-(*   OnBoundary2 / InPolygon   crossing number          point_in_polygon   *)
+(*   OnBoundary2 / InPolygon   crossing number          point_in_polygon,  *)
+(*   SimplePoly (family guard)                          point_in_cell      *)
 (*   OnSurface / InPolyhedron  segment-to-far-point parity with signed     *)
 (*                             volumes over the fan triangulation of the   *)
 (*                             faces                    point_in_polyhedron*)
